@@ -37,7 +37,7 @@ CHECKS = {
         "mirrored statements; the four __eq__ call the search symmetrically "
         "with their own refinement labels and guard empty graphs; descriptor "
         "equality is orbit membership over proven rotation groups; colours "
-        "are aggregated order-free; relabel_atoms rebuilds every container.",
+        "are aggregated order-free; relabel_atoms rebuilds every container."
         " relabel_atoms renames every identifier of the result totally "
         "(R-RENAME-ALL / R-RENAME-TOTAL); memoised graph state is reset by "
         "every identity-relevant edit (R-MEMO-INVALIDATE) and run-time caches "
@@ -57,7 +57,7 @@ CHECKS = {
         "correct polarity; stereo / stereo-change / bond-role predicates "
         "compare the mapped items of u with those of v and are registered "
         "for the right flags; the descriptor symmetry tables are the proper "
-        "rotation groups (table theorems of C04).",
+        "rotation groups (table theorems of C04)."
         " Coverage filters of the stereo predicates admit the None "
         "placeholder in every spelling (list and set forms); memoised colours "
         "/ hashes are reset by every identity-relevant edit "
